@@ -205,6 +205,9 @@ if __name__ == "__main__":
     elif cmd == "intake6":
         for p in sys.argv[2:]:
             intake(p, "/tmp/w6_%s/seed_out" % p, "GH")
+    elif cmd == "intake7":
+        for p in sys.argv[2:]:
+            intake(p, "/tmp/w7_%s/seed_out" % p, "IJ")
     elif cmd == "confirm":
         for s in sys.argv[2:]:
             confirm(s)
